@@ -504,7 +504,17 @@ func runC07(w *World, tr *Trace) {
 		ops = append(ops, evalOp())
 		// closing phase: deletions, maintenance, compression, restart - each followed by an evaluation
 		for j := 0; j < 2+r.Intn(5); j++ {
-			switch r.Intn(7) {
+			switch r.Intn(8) {
+			case 7:
+				// heavy deletion without vacuum: 80-95 % of what is live becomes tombstones the search must still traverse
+				if !small && len(liveN) > 60 {
+					keep := len(liveN) * (5 + r.Intn(16)) / 100
+					for len(liveN) > keep && len(liveN) > 12 {
+						p := r.Intn(len(liveN))
+						ops = append(ops, Op{K: "del", Idx: "ix", ID: c07ID(liveN[p])})
+						liveN = append(liveN[:p], liveN[p+1:]...)
+					}
+				}
 			case 0, 1:
 				nd := 1 + r.Intn(max(1, len(liveN)/3))
 				for q := 0; q < nd && len(liveN) > 2; q++ {
